@@ -130,6 +130,8 @@ type Case struct {
 	Base    string      `json:"base"`
 	With    string      `json:"with"`
 	Dirs    []Directive `json:"directives"`
+	// Style: "" | crlf (both programs with CRLF line ends) | trailing-ws (blank and tab behind the text of every # and // directive)
+	Style string `json:"style,omitempty"`
 }
 
 func comment(marker, text string) string {
@@ -307,6 +309,11 @@ func gen12(tier string, emit func(Case)) {
 		for _, d := range pls {
 			for _, v := range variants(d) {
 				emit(Case{Program: p.name, Base: base, With: apply(r.lines, []Directive{v}), Dirs: []Directive{v}})
+				// the same file with CRLF line ends, and with white space behind the directive
+				emit(Case{Program: p.name, Base: base, With: apply(r.lines, []Directive{v}), Dirs: []Directive{v}, Style: "crlf"})
+				if v.Marker != "/*" {
+					emit(Case{Program: p.name, Base: base, With: apply(r.lines, []Directive{v}), Dirs: []Directive{v}, Style: "trailing-ws"})
+				}
 			}
 		}
 		// pairs (rule lists: none / first covered rule; one marker)
@@ -464,6 +471,28 @@ func posClass(d Directive) string {
 }
 
 func run(c Case) engine.Result {
+	r := run0(c)
+	if c.Style != "" {
+		for i := range r.Findings {
+			r.Findings[i].Class += "|" + c.Style
+		}
+	}
+	return r
+}
+
+func run0(c Case) engine.Result {
+	switch c.Style {
+	case "crlf":
+		c.Base, c.With = strings.ReplaceAll(c.Base, "\n", "\r\n"), strings.ReplaceAll(c.With, "\n", "\r\n")
+	case "trailing-ws":
+		ls := strings.Split(c.With, "\n")
+		for i, l := range ls {
+			if strings.Contains(l, "falco-ignore") && !strings.HasSuffix(l, "*/") {
+				ls[i] = l + " \t"
+			}
+		}
+		c.With = strings.Join(ls, "\n")
+	}
 	bl := lintx.Lint(c.Base, nil)
 	wl := lintx.Lint(c.With, nil)
 	if wl.ParseErr != nil {
@@ -561,7 +590,7 @@ func init() {
 		Level: "exploration",
 		Rule: "14 base programs with 3-8 lint errors (several rules, nested in if/else/bare blocks and switch cases, first/last statement, two subroutines, after the covered region, diagnostics reported late such as unused locals); every placement of one directive (next-line before every statement incl. compound ones, trailing on every simple statement, start/end around every contiguous range of every block with the end before the next statement or as the last comment of the block) x {no rule list, a covered rule, an uncovered rule, two rules} x {//, #, /* */}; every pair of placements (thorough: every triple); two (thorough: three) next-line comments stacked in front of one statement with different rule lists; oracle: diagnostics(with) = diagnostics(base) minus those located on covered lines (and of a listed rule), compared as multisets of (severity, rule, message); non-trivial = at least one diagnostic is covered; distinct = distinct program text Round 3: next-line and trailing directives on break; / fallthrough;, a program with the same unused local name in two subroutines and two branches.",
 		Gen:  gen12,
-		Key:  func(c Case) string { return c.With },
+		Key:  func(c Case) string { return c.With + "\x00" + c.Style },
 		Run:  run,
 		Assumptions: []string{"a diagnostic is located in a statement when its reported line lies within the statement's line span in the base program (one statement per line, compound statements span their block)"},
 	})
